@@ -68,7 +68,7 @@ inductive Frame where
   | tryF (handlers : List (ExcClass × List Stmt)) (fin : List Stmt)
   | handlerF (fin : List Stmt)
   | finF (pending : Completion)
-  | callF
+  | callF (closing : Bool)   -- nested coroutine frame; `closing`: being closed by PEP 380 (see `markClosing`)
 deriving Inhabited
 
 structure PSt where
@@ -84,6 +84,13 @@ def findHandler (e : Exc) : List (ExcClass × List Stmt) → Option (List Stmt)
   | [] => none
   | (c, b) :: hs => if c.matches e then some b else findHandler e hs
 
+/-- PEP 380: a GeneratorExit thrown into a coroutine that is suspended inside nested `await`s is
+    delivered to the nested frames with `close()`. -/
+def markClosing : List Frame → List Frame
+  | [] => []
+  | .callF _ :: k => .callF true :: markClosing k
+  | fr :: k => fr :: markClosing k
+
 def fuelOut : Exc := .other 999
 
 /-- run the program up to its next interaction -/
@@ -96,14 +103,17 @@ def run : Nat → Mode → List Frame → List Ev → PStep PSt
     | .susp t => .yield t ⟨.seq rest :: k, log⟩
     | .oob m d => .oob m d ⟨.seq rest :: k, log⟩
         (fun _ => run f (.comp (.raising (.runtime rtNotActive))) (.seq rest :: k) log)
-    | .sub m op => .sub m op ⟨.seq rest :: k, log⟩ (fun r =>
+    | .sub m op => .sub m op ⟨.seq rest :: k, log⟩ (fun how r =>
+        let k' := match how with
+          | some (.throw .genExit) => markClosing (.seq rest :: k)
+          | _ => .seq rest :: k
         match r with
-        | .send v => run f (.comp .normal) (.seq rest :: k) (.recv v :: log)
-        | .throw e => run f (.comp (.raising e)) (.seq rest :: k) log)
+        | .send v => run f (.comp .normal) k' (.recv v :: log)
+        | .throw e => run f (.comp (.raising e)) k' log)
     | .raise e => run f (.comp (.raising e)) k log
     | .ret v => run f (.comp (.returning v)) k log
     | .try_ b hs fin => run f (.exec b) (.tryF hs fin :: .seq rest :: k) log
-    | .call b => run f (.exec b) (.callF :: .seq rest :: k) log
+    | .call b => run f (.exec b) (.callF false :: .seq rest :: k) log
   | _ + 1, .comp c, [], log =>
     match c with
     | .normal => .ret 0 ⟨[], log⟩
@@ -121,8 +131,14 @@ def run : Nat → Mode → List Frame → List Ev → PStep PSt
     | .handlerF fin, c => run f (.exec fin) (.finF c :: k) log
     | .finF pend, .normal => run f (.comp pend) k log
     | .finF _, c => run f (.comp c) k log
-    | .callF, .returning _ => run f (.comp .normal) k log
-    | .callF, c => run f (.comp c) k log
+    -- PEP 479 at every coroutine-frame boundary
+    | .callF _, .raising (.stopIter _) => run f (.comp (.raising (.runtime Proto.rtRaisedStopIter))) k log
+    | .callF false, .returning _ => run f (.comp .normal) k log
+    | .callF false, c => run f (.comp c) k log
+    -- the frame was closed by `close()`: a return (GeneratorExit swallowed) or GeneratorExit is a
+    -- clean close and GeneratorExit is then raised in the awaiting frame; an error propagates
+    | .callF true, .raising e => run f (.comp (.raising e)) k log
+    | .callF true, _ => run f (.comp (.raising .genExit)) k log
 
 def fuel : Nat := 100000
 
@@ -136,7 +152,7 @@ def progP (prog : List Stmt) : PBody where
       let rec go : PStep PSt → PStep (Option PSt)
         | .yield y s => .yield y (some s)
         | .oob m d s refused => .oob m d (some s) (fun u => go (refused u))
-        | .sub m op s k => .sub m op (some s) (fun r => go (k r))
+        | .sub m op s k => .sub m op (some s) (fun how r => go (k how r))
         | .ret v s => .ret v (some s)
         | .raise e s => .raise e (some s)
       go st
@@ -144,13 +160,14 @@ def progP (prog : List Stmt) : PBody where
     | none, .send _ => lift (run fuel (.exec prog) [] [])
     | none, .throw e => .raise e none
     | some st, .send v => lift (run fuel (.comp .normal) st.k (.recv v :: st.log))
+    | some st, .throw .genExit => lift (run fuel (.comp (.raising .genExit)) (markClosing st.k) st.log)
     | some st, .throw e => lift (run fuel (.comp (.raising e)) st.k st.log)
 
 /-- forget `sub` (leaf programs never contain it) -/
 def toStep {σ : Type} : PStep σ → Step σ
   | .yield y s => .yield y s
   | .oob m d s refused => .oob m d s (fun u => toStep (refused u))
-  | .sub _ _ _ k => toStep (k (.throw .typeErr))
+  | .sub _ _ _ k => toStep (k none (.throw .typeErr))
   | .ret v s => .ret v s
   | .raise e s => .raise e s
 
